@@ -413,8 +413,11 @@ func checkLeave(c *Ctx, res *report.Result) {
 			cc := call.Common()
 			if bi, isB := cc.Value.(*ssa.Builtin); isB && bi.Name() == "delete" {
 				if _, fld, okf := flow.FieldLoadOf(cc.Args[0]); okf && fld == "remoteNodeStates" {
-					if p, okp := flow.FieldPath(cc.Args[1]); okp && strings.HasSuffix(p, "node.Name") && flow.HeldAt(f, call, "remoteNodeStatesMu", true) {
-						ok = true
+					// the key is the Name of the node the callback was given (its first parameter after the receiver)
+					if base, fld, okl := flow.FieldLoadOf(cc.Args[1]); okl && fld == "Name" && flow.HeldAt(f, call, "remoteNodeStatesMu", true) {
+						if par, isPar := flow.Strip(flow.ResolveLoad(base)).(*ssa.Parameter); isPar && len(f.Params) > 1 && par == f.Params[1] {
+							ok = true
+						}
 					}
 				}
 			}
